@@ -262,15 +262,30 @@ class Report:
             else:
                 unknown_concrete.append(rep)
         nviol = 0
+        replaying = os.environ.get("VERIF_REPLAY")
+        if replaying:
+            # a replay run re-executes the deterministic check (same tier and seed) and reports whether the
+            # recorded violation recurs; it does not touch the evidence file or the replay file
+            keys = lambda reps: {json.dumps(r.get("match_key") or r.get("op") or r.get("case") or r.get("what"), ensure_ascii=False) for r in reps}
+            old = json.load(open(replaying, encoding="utf-8"))
+            oldk = keys(old.get("cases", []) + old.get("broken", []) + old.get("other", []))
+            newk = keys(unknown_concrete + [r for _, r in others])
+            again = sorted(oldk & newk)
+            print("REPLAY property=%s recorded=%d recurring=%d other-now=%d" % (self.prop, len(oldk), len(again), len(newk - oldk)))
+            for k in again[:5]: print("  recurs:", k[:300])
+            if again:
+                print("VIOLATION property=%s replay=%s%s" % (self.prop, replaying, "" if (unknown_concrete) else " no-failing-input-found"))
+            sys.stdout.flush()
+            return 1 if again else 0
         if unknown_concrete:
             path = os.path.join(ROOT, "replays", "%s-%s-%d.json" % (self.prop, self.tier, self.seed))
-            json.dump({"property": self.prop, "kind": "failing-input", "cases": unknown_concrete[:20],
+            json.dump({"property": self.prop, "tier": self.tier, "seed": self.seed, "kind": "failing-input", "cases": unknown_concrete[:20],
                        "other": [r for _, r in others][:10]}, open(path, "w", encoding="utf-8"), ensure_ascii=False, indent=1)
             out_lines.append("VIOLATION property=%s replay=%s" % (self.prop, path))
             nviol = len(unknown_concrete)
         elif others:
             path = os.path.join(ROOT, "replays", "%s-%s-%d.json" % (self.prop, self.tier, self.seed))
-            json.dump({"property": self.prop, "kind": "no-failing-input-found",
+            json.dump({"property": self.prop, "tier": self.tier, "seed": self.seed, "kind": "no-failing-input-found",
                        "broken": [r for _, r in others][:20]}, open(path, "w", encoding="utf-8"), ensure_ascii=False, indent=1)
             out_lines.append("VIOLATION property=%s replay=%s no-failing-input-found" % (self.prop, path))
             nviol = len(others)
